@@ -15,6 +15,7 @@
   decided on every run on the implementation and the bit-identical model.
 -/
 import Jb.Proofs.Engine
+import Jb.Proofs.Total
 
 set_option linter.unusedSectionVars false
 
@@ -78,5 +79,24 @@ theorem synth_total_two_stream (fx : Fix) (c : Condition K) (inp : EngineIn K)
 theorem frame_is_fperiod (fx : Fix) (v : VocoderSt K) (lf0 : K) (sp lpf : List K) :
     (vocoderSynth fx v lf0 sp lpf).1.length = v.fperiod :=
   vocoderSynth_length fx v lf0 sp lpf
+
+/-- **Total and frame-exact, in full generality.** For every well-formed engine input (`EngineWF`: two or three
+    streams, every stream with enough Gaussians per state and a GV switch covering every state, log-F0 of
+    length 1, low-pass of odd length, one threshold and GV weight per stream; with alignment, `nstate > 0`
+    and one time pair per label) synthesis returns — no panic site is reachable — every state lasts at least
+    one frame, and the waveform has exactly `frame_period × F` samples. -/
+theorem synth_total (fx : Fix) (c : Condition K) (inp : EngineIn K) (h : EngineWF c inp) (b : Bool) :
+    ∃ durs w, engineDurations c b inp = .ok durs ∧ durs.length = inp.duration.length ∧ (∀ x ∈ durs, 1 ≤ x) ∧
+      engineSynthesize fx c b inp = .ok w ∧ w.length = c.fperiod * durs.sum :=
+  engineSynthesize_total fx c inp h b
+
+/-- … hence `F ≥ labels × states`, and no label or state contributes nothing. -/
+theorem synth_total_frames (fx : Fix) (c : Condition K) (inp : EngineIn K) (h : EngineWF c inp) (b : Bool) :
+    ∃ durs w, engineDurations c b inp = .ok durs ∧ engineSynthesize fx c b inp = .ok w ∧
+      c.fperiod * inp.duration.length ≤ w.length := by
+  obtain ⟨durs, w, h1, h2, h3, h4, h5⟩ := engineSynthesize_total fx c inp h b
+  refine ⟨durs, w, h1, h4, ?_⟩
+  rw [h5, ← h2]
+  exact Nat.mul_le_mul_left _ (frames_ge_states durs h3)
 
 end Jb.C01
